@@ -351,6 +351,67 @@ def build_loop(run, funcs, pid):
     run.bound('build loop: candidate list [self, one more candidate] with the second candidate an arbitrary generator or periodic image (symbolic positions/shift/safety radius)')
 
 
+def build_loop_multi(run, funcs, pid, ncand=3):
+    """ConvexCell::build over a candidate list [self, c1 .. c_ncand] (distinct generators, 1D / 2D / 3D): every candidate is examined in
+    order; the loop stops before candidate k only because candidate k is farther than the safety radius reached after the clips so far;
+    every examined candidate within that radius is clipped.  `clip_by_plane` is a recorder that replaces the safety radius by a fresh
+    symbol, so the claim holds for every way the radius evolves."""
+    from . import oracle as OR
+    loc = rvec('loc')
+    g = [loc] + [rvec('g%d' % k) for k in range(1, ncand + 1)]
+    gens = Agg('array', [engine.make_struct('src/voronoi/generator.rs', 'Generator', loc=g[k], id=k) for k in range(ncand + 1)])
+    sr0 = z3.Real('sr0')
+    cc = lambda v, nm: v.items[engine.field_index('src/voronoi/convex_cell.rs', 'ConvexCell', nm)]
+    for dim in FR.DIMS:
+        def clip(i, st, a, c):
+            k = len([e for e in st.events if e[0] == 'clip'])
+            st.events.append(('clip', a[1]))
+            cell = i.deref_read(st, a[0])
+            sridx = engine.field_index('src/voronoi/convex_cell.rs', 'ConvexCell', 'safety_radius')
+            items = list(cell.items)
+            items[sridx] = z3.Real('sr_after_clip_%d' % (k + 1))
+            i.deref_write(st, a[0], Agg(cell.tag, items))
+            return UNIT
+        ov = {'convex_cell::ConvexCell::init': lambda i, st, a, c: cell_value(a[1], a[0], sr0, dim),
+              'convex_cell::ConvexCell::clip_by_plane': clip}
+        it = list_iter([Agg('tuple', (k, none())) for k in range(ncand + 1)])
+        simvol = engine.make_struct('src/voronoi/boundary.rs', 'SimulationBoundary', anchor=Opaque('anchor'), inverse_width=Opaque('iw'),
+                                    dimensionality=FR.dimv(dim), clipping_planes=Opaque('planes'))
+        pre = [sr0 >= 0]
+        c = Call(run, funcs, r'convex_cell::<impl at [^>]*>::build$', [loc, 0, gens, it, simvol], by_ref=(2, 4), overrides=ov, pre=pre)
+        tag = '%s build loop[%s, %d candidates]' % (pid, dim, ncand)
+        seen_full = False
+        for k, (st, cell) in enumerate(c.outs):
+            H = pre + hyps_of(st)
+            clips = [e[1] for e in st.events if e[0] == 'clip']
+            nclip = len(clips)
+            dists = [d for d, X in st.sqrts]
+            # candidates examined = distances computed; labels of the clipped planes must be 1..nclip in order
+            labels = [hs_f(h, 'right_idx') for h in clips]
+            in_order = all(r.name == 'Some' and r.items[0] == j + 1 for j, r in enumerate(labels))
+            if nclip == ncand:
+                seen_full = True
+                ok = z3.BoolVal(in_order and len(dists) == ncand)
+            else:
+                # stopped before candidate nclip+1: its distance was computed and exceeds the current safety radius
+                if len(dists) != nclip + 1:
+                    ok = z3.BoolVal(False)
+                else:
+                    sr_now = sr0 if nclip == 0 else z3.Real('sr_after_clip_%d' % nclip)
+                    ok = z3.And(z3.BoolVal(in_order), sr_now < dists[nclip])
+            vv, m = run.prove('%s path %d (%d clipped): candidates are clipped in order; the loop ends early only at a candidate farther than the current safety radius'
+                              % (tag, k, nclip), H, z3.Not(ok), timeout=20, cross=False, on_sat='caller')
+            if vv == 'sat':
+                d = DIMN[dim]
+                what = '%s: the builder stops after %d of %d candidates although the next one is not farther than the safety radius' % (tag, nclip, ncand)
+                extra = [OR.scenario(d, per, n, None, seed=sd) for per in (False, True) for n in (3, 4, 5) for sd in (0, 1)]
+                if not OR.confirm_family(pid, run, what, d, False, None, (0, 1), extra=extra):
+                    run.suspect.append(what + ' (no public-API scenario shows a difference)')
+        if not seen_full:
+            run.suspect.append('%s: no path clips all %d candidates' % (tag, ncand))
+    run.bound('build loop, several candidates: list [self, c1..c%d] of distinct generators without shift, symbolic positions; safety radius after each clip is a fresh symbol' % ncand)
+
+
 def check_own_image_native(p, profile='debug'):
     """a single generator in a periodic box neighbours its own images: the cell must be the box"""
     for dim, vol in ((3, 2.0 * 1.0 * 0.5), (2, 2.0 * 1.0), (1, 2.0)):
